@@ -463,6 +463,22 @@ let make_m1 (params : string list) : machine =
   (* versions whose root node sits under (v,0) in the physical store (PruneAlgo.phys_of) *)
   let rk : z list ref = ref [] in
   let stale_handle = ref false in
+  (* the history of the legacy library (LegacyStore.lop), recorded until "legacyend" *)
+  let in_legacy = ref (header_param params "legacy" "" <> "") in
+  let lops : lop list ref = ref [] in
+  let legacy_note (toks : string list) (before : mstate) (after : mstate) : unit =
+    if !in_legacy then
+      (match toks with
+       | [ "save" ] ->
+           (match List.rev after.forest with
+            | (w, t) :: _ when not (List.exists (fun (u, _) -> u = w) before.forest) -> lops := LCommit t :: !lops
+            | _ -> ())
+       | [ "prune"; n ] ->
+           (* executed by the legacy library as DeleteVersion(i) for every retained i <= n, ascending *)
+           List.iter (fun (w, _) -> if int_of_z w <= int_of_string n then lops := LDelete w :: !lops) before.forest
+       | [ "ldel"; v ] -> lops := LDelete (z_of_string v) :: !lops
+       | [ "legacyend" ] -> in_legacy := false
+       | _ -> ()) in
   let out_of_contract (o : op) : bool =
     not (in_contractb !st o) && (match m_step !st o with (_, XErr) -> false | _ -> true) in
   (* the physical deletion (PruneAlgo.prune_forest) under a flush schedule; updates [rk] *)
@@ -566,6 +582,16 @@ let make_m1 (params : string list) : machine =
             (match x1 with
              | XOk -> let s2, x2 = m_step s1 (OLoad (z_of_string v)) in st := s2; show_out x2
              | _ -> st := s1; "err")
+        | [ "x"; "lraw" ] ->
+            (* the legacy key space as the legacy library left it: node hashes, orphan records
+               (to.from.hash) and root records of LegacyStore.legacy_history on the recorded history *)
+            if List.length !lops > 12 then "*" (* long histories (profile C16p): the model hashes every subtree afresh *) else
+            let (db, _) = legacy_history_sha (List.rev !lops) in
+            let srt l = List.sort compare l in
+            let ns = srt (List.map (fun (h, _) -> hex_of_bytes h) db.lnodes) in
+            let os = srt (List.map (fun ((t, f), h) -> Printf.sprintf "%d.%d.%s" (int_of_z t) (int_of_z f) (hex_of_bytes h)) db.lorph) in
+            let rs = srt (List.map (fun (v, h) -> Printf.sprintf "%d.%s" (int_of_z v) (hex_of_bytes h)) db.lroots) in
+            "lraw(n=" ^ String.concat "," ns ^ ";o=" ^ String.concat "," os ^ ";r=" ^ String.concat "," rs ^ ")"
         | "x" :: _ -> "ok"
         | [ "legacyend" ] -> "ok"
         | [ "lprune"; _ ] -> "ok" (* DeleteVersionsTo below the latest legacy version: a documented no-op *)
@@ -962,6 +988,7 @@ let make_m1 (params : string list) : machine =
   { step = (fun toks ->
         prev := !st;
         let r = step1 toks in
+        legacy_note toks !prev !st;
         (* out-of-contract operations raise above; a failed model step changes nothing below *)
         if Sys.getenv_opt "VERIF_NOFMIRROR" = None then fmirror toks;
         memo_mirror toks r);
